@@ -34,6 +34,8 @@ def pActs : Nat → P (List Act)
     else if k == "W" then pure .write else if k == "R" then pure .ret
     else if k == "P" then Act.panic <$> nat
     else if k == "K" then Act.call <$> pActs d
+    -- F: `c.Fail(err)` (app handlers; router-level handlers: Abort + JSON) — a call that aborts, then writes
+    else if k == "F" then pure (Act.call [.abort, .write])
     else failure
 
 structure Res where
